@@ -332,7 +332,7 @@ func init() {
 		Assumptions: []string{"ed25519 signatures made by another key do not verify"},
 		NumCases: func(tier string) int {
 			if tier == "thorough" {
-				return c16Exhaustive() + 20000
+				return c16Exhaustive() + 100000
 			}
 			return c16Exhaustive()
 		},
